@@ -135,6 +135,7 @@ type world struct {
 	Publisher     bool   // publisher node (arbitrating, creates blocks) or follower (non-arbitrating)
 	GenesisCoins  uint64
 	MaxBlockSize  uint32
+	OfferBlocks   bool // publisher (arbitrating) node that is also OFFERED externally built publisher-signed blocks
 	SmallTxn      bool // run with USER_MAX_TXN_SIZE=1024 (set in the environment of the worker processes): 1 KiB transaction and block limits
 }
 
@@ -203,6 +204,7 @@ func (w world) modelParams() ledger.Params {
 		CreateBlock:  ledger.VerifyParams{Burn: vpCreateBlock.BurnFactor, MaxSize: ms(vpCreateBlock.MaxTransactionSize), Precision: vpCreateBlock.MaxDropletPrecision},
 		User:         ledger.VerifyParams{Burn: u.BurnFactor, MaxSize: u.MaxTransactionSize, Precision: u.MaxDropletPrecision},
 		MaxBlockSize: w.MaxBlockSize,
+		Arbitrating:  w.Publisher,
 	}
 }
 
